@@ -10,6 +10,23 @@ ls -d seeded/${1:-}*/ | xargs -P ${SEEDS_PARALLEL:-6} -I{} sh -c '
   verdict=$(echo "$r" | grep "^MUTEST" | tail -1)
   how=$(echo "$r" | grep "replay:" | head -2 | sed "s/^ *replay: //" | cut -c1-160 | tr "\n" ";")
   echo "$n | $verdict | $how" > '$tmp'/$n'
-cat $tmp/* | sort -V > $out
+# merge: lines of the seeds just run replace their old lines, every other line of the file is kept
+python3 - "$out" "$tmp" <<'PY'
+import sys, os, re
+out, tmp = sys.argv[1], sys.argv[2]
+lines = {}
+if os.path.exists(out):
+    for l in open(out):
+        if " | " in l:
+            lines[l.split(" | ")[0].strip()] = l.rstrip("\n")
+for n in os.listdir(tmp):
+    l = open(os.path.join(tmp, n)).read().strip()
+    if l:
+        lines[n] = l
+def key(n):
+    m = re.match(r"C(\d+)-(\d+)", n)
+    return (int(m.group(1)), int(m.group(2))) if m else (999, 0)
+open(out, "w").write("\n".join(lines[k] for k in sorted(lines, key=key)) + "\n")
+PY
 rm -rf $tmp
 grep -c DETECTED $out; grep -v DETECTED $out
